@@ -284,12 +284,50 @@ DYNAMIC_NAMES = {"eval", "exec", "compile", "globals", "locals", "vars", "__impo
 DYNAMIC_ATTRS = {"__getattr__", "__getattribute__", "__class__", "__slots__", "__delattr__", "__set__", "__get__"}
 
 
+_MUTATORS = ("update", "pop", "popitem", "setdefault", "clear", "__setitem__", "__delitem__")
+
+
+def readonly_vars_use(repo: Repo, name_node: ast.Name) -> bool:
+    """`vars(x)` whose result is only read: passed to a builtin that iterates, subscripted for loading, tested for membership, used as
+    the receiver of a non-mutating method, iterated - or bound to a local name that is itself only used in those ways."""
+    call = repo.parent(name_node)
+    if not (isinstance(call, ast.Call) and call.func is name_node and len(call.args) == 1):
+        return False
+
+    def readonly(node, depth=0) -> bool:
+        par = repo.parent(node)
+        if isinstance(par, ast.Call) and node in par.args and isinstance(par.func, ast.Name) and par.func.id in ("sorted", "list", "tuple", "len", "iter", "dict", "set", "frozenset", "enumerate", "str", "repr", "any", "all", "min", "max"):
+            return True
+        if isinstance(par, ast.Subscript) and par.value is node:
+            return isinstance(par.ctx, ast.Load)
+        if isinstance(par, ast.Compare):
+            return True
+        if isinstance(par, ast.Attribute) and par.value is node:
+            return par.attr not in _MUTATORS and isinstance(repo.parent(par), ast.Call)
+        if isinstance(par, (ast.For, ast.comprehension)) and par.iter is node:
+            return True
+        if isinstance(par, ast.Assign) and par.value is node and len(par.targets) == 1 and isinstance(par.targets[0], ast.Name) and depth == 0:
+            var = par.targets[0].id
+            fn = par
+            while fn is not None and not isinstance(fn, (ast.FunctionDef, ast.AsyncFunctionDef)):
+                fn = repo.parent(fn)
+            if fn is None:
+                return False
+            uses = [x for x in ast.walk(fn) if isinstance(x, ast.Name) and x.id == var and x is not par.targets[0]]
+            return all(isinstance(u.ctx, ast.Load) and readonly(u, 1) for u in uses)
+        return False
+
+    return readonly(call)
+
+
 def dynamic_feature_inventory(repo: Repo) -> list[tuple[str, int, str]]:
     """G0: reflective features the analyses do not model.  Any hit makes every check undecided."""
     hits = []
     for m, mi in repo.modules.items():
         for n in ast.walk(mi.tree):
             if isinstance(n, ast.Name) and n.id in DYNAMIC_NAMES:
+                if n.id == "vars" and readonly_vars_use(repo, n):
+                    continue  # a read-only view of an object's attributes (iteration, lookup) adds no writer
                 hits.append((m, n.lineno, f"use of {n.id}"))
             elif isinstance(n, (ast.Import, ast.ImportFrom)):
                 names = [a.name for a in n.names]
